@@ -81,6 +81,8 @@ pub struct Session {
     pub files: Vec<(String, String)>,
     pub saved: Vec<(String, String)>,
     pending: Option<String>,
+    /// when set, an INPUT prompt is never answered automatically
+    pub hold_input: bool,
 }
 
 impl Session {
@@ -101,6 +103,7 @@ impl Session {
             files: vec![],
             saved: vec![],
             pending: None,
+            hold_input: false,
         };
         s.drain();
         s.ev.clear();
@@ -166,6 +169,9 @@ impl Session {
             }
             Event::Input(p, caps) => {
                 self.ev.push(Ev::Prompt(p, caps));
+                if self.hold_input {
+                    return Some(Status::AwaitInput);
+                }
                 match self.replies.pop_front() {
                     Some(r) => {
                         self.rt.enter(&r);
